@@ -11,7 +11,7 @@ open Rsj.Core Rsj.Eval Rsj.Eval.Scope
 /-- invariant of the loop that builds the variables of a `local` -/
 def varsInv (s s1 : St) {β} : PostCond (β × List (String × TId)) PS :=
   ⟨fun (_, vars) st => ⌜Safe st ∧ Le s st ∧ SzLe s1 st ∧ ∀ v ∈ vars, v.2 < st.thunks.size⌝,
-   fun e st => ⌜Safe st ∧ Good2 e⌝, fun _ => ⌜True⌝, ()⟩
+   fun e st => ⌜Safe st ∧ Good2 e ∧ SzLe s st⌝, fun _ => ⌜True⌝, ()⟩
 
 /-- the layer of an object literal under construction -/
 def ObjLayer2 (nt ne : Nat) (env : EId) (ms : Members) (layer : Layer) : Prop :=
@@ -71,12 +71,12 @@ theorem layerRng_singleton {nt ne : Nat} {l r : Layer} (h : l ∈ [r]) (hr : Lay
 /-- invariant of the loop over the members of an object literal -/
 def objInv (s s1 : St) (env : EId) (ms : Members) {β} : PostCond (β × Layer) PS :=
   ⟨fun (_, layer) st => ⌜Safe st ∧ Le s st ∧ SzLe s1 st ∧ ObjLayer2 st.thunks.size st.envs.size env ms layer⌝,
-   fun e st => ⌜Safe st ∧ Good2 e⌝, fun _ => ⌜True⌝, ()⟩
+   fun e st => ⌜Safe st ∧ Good2 e ∧ SzLe s st⌝, fun _ => ⌜True⌝, ()⟩
 
 /-- invariant of the loop over the binding sets of an object comprehension -/
 def compInv (s s1 : St) (locals : Binds) {β} : PostCond (β × Layer) PS :=
   ⟨fun (_, layer) st => ⌜Safe st ∧ Le s st ∧ SzLe s1 st ∧ CompLayer2 st.thunks.size st.envs.size locals layer⌝,
-   fun e st => ⌜Safe st ∧ Good2 e⌝, fun _ => ⌜True⌝, ()⟩
+   fun e st => ⌜Safe st ∧ Good2 e ∧ SzLe s st⌝, fun _ => ⌜True⌝, ()⟩
 
 section
 variable (cfg : Cfg) (rec : Task → M Value) (hrec : RecOk2 rec)
@@ -178,7 +178,8 @@ theorem callRest_spec2 (s : St) (fn : Func) (args : Args) (ts : Bool) (env : EId
   all_goals vcprep2
   all_goals first
     | s2close
-    | exact ⟨hS, Good2_bindErr _⟩
+    | exact ⟨hS, Good2_bindErr _, by omega, by omega, by omega, by omega⟩
+    | exact ⟨by assumption, Good2_bindErr _, by omega, by omega, by omega, by omega⟩
     | exact shaped_posArg hargs (mem_of_split (by assumption))
     | exact shaped_namedArg hargs (mem_of_split (by assumption))
     | (simp only [List.length_append, List.length_cons, List.length_nil] at *; s2close)
